@@ -79,7 +79,7 @@ def evaluate(cand: Path, run_suite: bool = True, all_props: bool = True) -> dict
             res['suite_patched'] = o.strip().splitlines()[-1] if o.strip() else ''
             res['suite_ok'] = c == 0
         caught = {}
-        props = PROPS if all_props else [target]
+        props = PROPS if (all_props and not os.environ.get('TARGET_ONLY')) else [target]
         for p in props:
             e = dict(env, FSIC_REPO=str(patched), FSA_OUT=str(patched / '_out'))
             c, o = sh([str(HERE / 'check'), p, '--tier', 'quick'], cwd=str(HERE), env=e)
@@ -103,7 +103,7 @@ def main() -> int:
     if args and args[0] == '--kept':
         cands = sorted(p for p in (HERE / 'seeded').iterdir() if p.is_dir())
     else:
-        cands = [Path(a) for a in args]
+        cands = [Path(a).resolve() for a in args]
     with cf.ThreadPoolExecutor(max_workers=8) as ex:
         for r in ex.map(lambda c: evaluate(c, run_suite=not no_suite), cands):
             print(json.dumps(r))
